@@ -491,6 +491,12 @@ class SeriesOps:
             return a0.with_term(t) if isinstance(a0, Ser) else t
         if name == "np.isin" and len(pos) == 2 and isinstance(a0, Ser) and not kw:
             return self.series_method(a0, "isin", [pos[1]], {}, node)
+        if name in ("itertools.chain.from_iterable", "chain.from_iterable") and len(pos) == 1 and not kw:
+            outer = I._concrete_seq(a0)
+            if outer is not None and all(I._concrete_seq(x) is not None for x in outer):
+                return [y for x in outer for y in I._concrete_seq(x)]          # the concatenation of concrete sequences
+        if name in ("itertools.chain", "chain") and pos and not kw and all(I._concrete_seq(x) is not None for x in pos):
+            return [y for x in pos for y in I._concrete_seq(x)]
         if name in ("itertools.count", "count") and len(pos) <= 1 and not kw and (not pos or isinstance(a0, int)):
             return ("count", a0 if pos else 0)
         if name in ("functools.partial", "partial") and pos and isinstance(a0, (FuncRef, Obj, ClassRef)):
@@ -768,6 +774,12 @@ class SeriesOps:
                 else:
                     r = I.pm.merge_values(c_, v_, r) if hasattr(I.pm, "merge_values") else T.ite(c_, to_term(v_), to_term(r))
             return r
+        if fn == "next" and conc is not None:
+            # the first element of an iterator over known elements (each call site sees a fresh iterator in the code analysed)
+            if conc:
+                return conc[0]
+            if len(pos) == 2:
+                return pos[1]
         if fn == "next":
             return ("next", to_term(a0))
         if fn in ("any", "all"):
